@@ -87,8 +87,14 @@ class TemperedStrategy(EmceeStrategy):
                  walker_initial_pos=None, parallel='auto', stages=3,
                  stage_len=30, seed=None):
         self.nwalkers = nwalkers
+        self.nsamples = nsamples
+        self.min_pixels = min_pixels
+        self.npixels = npixels
         self.parallel = parallel
+        self.stages = stages
+        self.stage_len = stage_len
         self.seed = seed
+        self._next_stage_seed = seed
         self.walker_initial_pos = walker_initial_pos
         self.next_initial_dist = next_initial_dist
         self.stage_strategies = []
@@ -106,9 +112,9 @@ class TemperedStrategy(EmceeStrategy):
                           nsamples=nsamples,
                           npixels=int(round(npixels)),
                           parallel=self.parallel,
-                          seed=self.seed))
-        if self.seed is not None:
-            self.seed += 1
+                          seed=self._next_stage_seed))
+        if self._next_stage_seed is not None:
+            self._next_stage_seed += 1
 
     def sample(self, model, data):
         start_time = time.time()
